@@ -81,7 +81,28 @@ Section C07.
       result_prov K keqb hash s Predict =
       result_prov K keqb hash (init_state K inputs v tfcols (st_params K s) uid' luid' fx') Predict.
   Proof. intros. apply invalidate_reflects_new_data; auto. Qed.
+
+  (* the DB-existence fallback of _get_table_from_cache_or_db is unreachable on one DatabaseAPI: whenever a hashed
+     key is not in the cache, no table of that name exists, so a cached pipeline either hits the cache or executes *)
+  Theorem C07_db_fallback_unreachable :
+    forall inputs ver tfcols params uid luid fx ops,
+      inputs_plain inputs -> forallb op_ok_hashed ops = true ->
+      let s := run K keqb hash (init_state K inputs ver tfcols params uid luid fx) ops in
+      (forall n k, aget K keqb (st_cache K s) (PH K n k) = None -> amem K keqb (st_db K s) (PH K n k) = false) /\
+      (forall templ tree al mids,
+         exec_pipeline K keqb hash s templ tree al mids true =
+         match aget K keqb (st_cache K s) (named K templ) with
+         | Some h => (s, h, [Hit (h_templ K h) (pbase K (h_phys K h))])
+         | None => match aget K keqb (st_cache K s) (PH K templ (hash tree (st_uid K s))) with
+                   | Some h => (s, h, [Hit (h_templ K h) (pbase K (h_phys K h))])
+                   | None => exec_run K keqb hash s templ tree
+                   end
+         end).
+  Proof.
+    intros. split; [intros; eapply db_fallback_unreachable; eauto | intros; eapply exec_pipeline_hit_or_run; eauto].
+  Qed.
 End C07.
+Print Assumptions C07_db_fallback_unreachable.
 Print Assumptions C07_hashed_entries_sound.
 Print Assumptions C07_predict_is_a_function_of_data_model_lookups.
 Print Assumptions C07_predict_depends_only_on_data_model_lookups.
@@ -145,6 +166,25 @@ Proof.
   exists [Predict; ChangeInput 1]. split; [vm_compute; reflexivity|]. cbv zeta. intros H. vm_compute in H. discriminate H.
 Qed.
 
+(* the fallback becomes reachable - and returns stale rows - as soon as a cleanup leaves a result table behind:
+   MODEL VARIANT [InvalidateKeepingResults] = an invalidate_cache that clears the cache but keeps the
+   __splink__df_predict tables (the DatabaseAPI._cache_uid that is hashed never changes, so after an in-place data
+   change the same SQL hashes to the same name and table_exists_in_database finds the old table).  X replays the
+   mechanism on the real code by forgetting the cache entry of df_predict before calling invalidate_cache. *)
+Theorem C07_invalidate_reflects_new_data_refuted_when_results_are_retained :
+  exists ops,
+    let s := run KI keqbI hashI (s0 repaired) ops in
+    amem KI keqbI (st_db KI s) (PH KI PREDICT (hashI (Cte PREDICT 0
+       [Mat (Cte BLOCKED 0 [Mat (cwtf_tree KI keqbI (s0 repaired))]); Mat (cwtf_tree KI keqbI (s0 repaired))]) 5)) = true /\
+    aget KI keqbI (st_cache KI s) (PH KI PREDICT (hashI (Cte PREDICT 0
+       [Mat (Cte BLOCKED 0 [Mat (cwtf_tree KI keqbI (s0 repaired))]); Mat (cwtf_tree KI keqbI (s0 repaired))]) 5)) = None /\
+    predict_prov s <> predict_prov (fresh_of KI keqbI s 777 888).
+Proof.
+  exists [Predict; ChangeInput 1; InvalidateKeepingResults].
+  cbv zeta. split; [vm_compute; reflexivity|split; [vm_compute; reflexivity|]]. intros H. vm_compute in H. discriminate H.
+Qed.
+Print Assumptions C07_invalidate_reflects_new_data_refuted_when_results_are_retained.
+
 (* (c) DESIGN 7.8: realtime cache key without the flag - a cached call with the flag after a call
    without it runs the SQL generated without the column *)
 Theorem C07_realtime_cache_transparent_refuted_without_flag_in_key :
@@ -166,19 +206,21 @@ Proof. split; [apply keqbI_spec | apply hashI_inj]. Qed.
 (* a non-trivial guarded history (training, tf tables, lookups, new records, clustering, input change) *)
 Definition example_history : list op :=
   [Predict; ComputeTF "first_name"; EstimateU 1 1; Predict; EstimateEM 0 2; FindMatches; CompareTwo true;
-   Cluster 0; ChangeInputInvalidate 1; RegisterTF "surname" 2; Predict; DeterministicLink; Predict].
+   Cluster 0; AccuracyColumn; ErrorsColumn; EstimateMColumn 3; AccuracyTable; Unlinkables; GraphMetrics 0; ClusterMulti;
+   Profile; BlockingCumulative; ChangeInputInvalidate 1; RegisterTF "surname" 2; AccuracyColumn; Predict;
+   DeterministicLink; Predict].
 Example C07_example_guard : hist_ok KI keqbI hashI (s0 repaired) example_history = true.
 Proof. vm_compute. reflexivity. Qed.
 Example C07_example_has_cache_hits :
   let s := run KI keqbI hashI (s0 repaired) example_history in
-  List.length (st_cache KI s) = 5 /\
-  obs KI keqbI (run KI keqbI hashI (init_state KI [LPlain "inp"] 1 ["first_name"; "surname"] 2 70 71 repaired)
+  List.length (st_cache KI s) = 9 /\
+  obs KI keqbI (run KI keqbI hashI (init_state KI [LPlain "inp"] 1 ["first_name"; "surname"] 3 70 71 repaired)
                     (registrations [("surname", 2)])) = obs KI keqbI s.
 Proof. split; vm_compute; reflexivity. Qed.
 (* so C07_predict_equals_fresh applies to it; the conclusion, recomputed: *)
 Example C07_example_conclusion :
   let s := run KI keqbI hashI (s0 repaired) example_history in
-  predict_prov s = predict_prov (run KI keqbI hashI (init_state KI [LPlain "inp"] 1 ["first_name"; "surname"] 2 70 71 repaired)
+  predict_prov s = predict_prov (run KI keqbI hashI (init_state KI [LPlain "inp"] 1 ["first_name"; "surname"] 3 70 71 repaired)
                                      (registrations [("surname", 2)])).
 Proof.
   apply (C07_predict_equals_fresh KI keqbI hashI keqbI_spec hashI_inj [LPlain "inp"] 0 ["first_name"; "surname"] 0 5 6 repaired
